@@ -14,6 +14,7 @@ import props_exec as P
 from registry import REGISTRY
 
 N = {"quick": 3000, "thorough": 60000}
+OVER_RE = __import__("re").compile(r"(?<![\w/.$@\"])(\d{19,})(?![\w/%.])")
 EXTRA_SEARCH = {"quick": 6000, "thorough": 60000}
 
 
@@ -43,6 +44,12 @@ def evaluate(chk, pid, cases, gens, gos, models, stats, samples):
         go = o["go"]
         if o.get("parseErrors"):
             stats["parse_errors"] += 1
+            if g is not None and "literal-over-int64" not in g.get("features", []) and \
+                    any(int(x) > 2 ** 63 - 1 for x in OVER_RE.findall(c["script"])):
+                # the generator wrote an integer literal above 2^63-1 by accident: that is the known finding of C14
+                # (rejected by the parser), not a case of this property
+                stats["generator_over_int64_literals"] = stats.get("generator_over_int64_literals", 0) + 1
+                continue
             if g is not None and "literal-over-int64" in g.get("features", []):
                 # rejected by the parser, as every literal that large is: nothing ran with another number
                 stats["over_int64_literals_rejected"] = stats.get("over_int64_literals_rejected", 0) + 1
